@@ -1,20 +1,86 @@
-import NanoVerif.Model.Ninja
+import NanoVerif.Proofs.Ninja
 import NanoVerif.Props.C10
 /-
-C09 — Re-running after any edit or interruption converges to the clean build (model-level facts).
-Only small facts are proved here; the convergence statement itself is explored on the real CLI + ninja.
+C09 — Re-running after any edit or interruption converges to the clean build.
+
+Proved on the chain model of ninja's dirty rule (Model/Ninja.lean, itself validated against the real ninja
+binary on random histories by `suite_ninja_model`): for EVERY history of edits with fresh mtimes, successful
+invocations with arbitrary (changing) command lines and failing invocations whose failure stays visible to
+ninja, one further successful invocation with any command list yields exactly the contents of a clean build.
+The two ways a history can leave the hypothesis are exhibited as counter-statements (F6, F7) and replayed on
+the real CLI by the check.
 -/
 open NanoVerif
 namespace NanoVerif.C09
 
-/-- an edit made "now" (mtime newer than everything logged) followed by one invocation gives the clean
-build of the new source — on a concrete 3-edge chain (evaluated by the kernel) -/
+/-- the histories of the property, as far as the chain model can express them -/
+inductive Reach : BuildDir → Prop
+  | empty (s : NFile) : Reach (emptyDir s)
+  /-- add / modify / rename-over a source, the new file carrying a fresh mtime -/
+  | edit {b} (c : Nat) : Reach b → Reach (edit b c)
+  /-- a successful invocation with any options (`cmds` may differ from every earlier invocation) -/
+  | invoke {b} (cmds : List Nat) : Reach b → Reach (invoke cmds b)
+  /-- an invocation in which step `j` fails, leaving nothing / the old file / a truncated or unlogged file,
+  provided ninja can still see the edge as dirty from mtimes or the log alone -/
+  | fault {b} (cmds : List Nat) (j : Nat) (leave : Leave) : Reach b → (invokeFault cmds j leave b).2 = true →
+      Reach (invokeFault cmds j leave b).1
+
+theorem reach_wf {b : BuildDir} (h : Reach b) : WF b := by
+  induction h with
+  | empty s => exact wf_empty s
+  | edit c _ ih => exact wf_edit c ih
+  | invoke cmds _ ih => exact wf_invoke cmds ih
+  | fault cmds j leave _ hv ih => exact wf_fault cmds j leave ih hv
+
+/-- **C09 (chain model)**: after any such history, one more successful invocation leaves every output with
+the content the clean build of the final source computes — for all histories, all command lists, all chain
+lengths. -/
+theorem history_converges {b : BuildDir} (h : Reach b) (cmds : List Nat) :
+    contents (invoke cmds b).outs = contents (cleanBuild cmds b.source).outs :=
+  converges_of_wf cmds (reach_wf h)
+
+theorem finalContent_eq (b : BuildDir) : finalContent b = (contents b.outs).getLast?.join := by
+  unfold finalContent contents
+  rw [List.getLast?_map]
+  cases b.outs.getLast? with
+  | none => rfl
+  | some x => cases x <;> rfl
+
+theorem history_converges_final {b : BuildDir} (h : Reach b) (cmds : List Nat) :
+    finalContent (invoke cmds b) = finalContent (cleanBuild cmds b.source) := by
+  rw [finalContent_eq, finalContent_eq, history_converges h cmds]
+
+/-- failures that leave nothing behind (atomic writers) or do not touch the output are always visible -/
+theorem removed_visible (cmds : List Nat) (j : Nat) (b : BuildDir) : (invokeFault cmds j .removed b).2 = true := by
+  unfold invokeFault
+  generalize b.source = s
+  generalize b.outs = outs
+  generalize b.logs = logs
+  generalize b.clock = c
+  generalize (0 : Nat) = k
+  generalize false = ud
+  induction cmds generalizing k s ud outs logs c with
+  | nil => simp [faultAux]
+  | cons cmd cmds ih =>
+    simp only [faultAux]
+    split
+    · split
+      · simp
+      · exact ih _ _ _ _ _ _
+    · split
+      · exact ih _ _ _ _ _ _
+      · rfl
+
+/-- non-vacuity: a history with an edit, an option change, a truncated output after an upstream rebuild, reaches a non-trivial state -/
+example : Reach (invokeFault [5, 9, 7] 1 (.garbage 999) (edit (invoke [5, 6, 7] (emptyDir ⟨100, 1⟩)) 200)).1 :=
+  Reach.fault _ _ _ (Reach.edit _ (Reach.invoke _ (Reach.empty _))) (by decide +kernel)
+
+/-- an edit made "now" followed by one invocation gives the clean build of the new source (instance) -/
 theorem edit_then_invoke_converges :
     finalContent (invoke [5, 6, 7] (edit (cleanBuild [5, 6, 7] ⟨100, 1⟩) 200)) =
     finalContent (cleanBuild [5, 6, 7] ⟨200, 1⟩) := by decide +kernel
 
-/-- changing a command (an option that reaches a command line or a rewritten config file) re-runs that
-edge and everything downstream -/
+/-- changing a command re-runs that edge and everything downstream (instance) -/
 theorem option_change_converges :
     finalContent (invoke [5, 9, 7] (cleanBuild [5, 6, 7] ⟨100, 1⟩)) = finalContent (cleanBuild [5, 9, 7] ⟨100, 1⟩) := by
   decide +kernel
@@ -25,7 +91,17 @@ theorem converges_fails_old_mtime :
     finalContent (invoke [5, 6, 7] (renameOver (cleanBuild [5, 6, 7] ⟨100, 10⟩) 200 3)) ≠
     finalContent (cleanBuild [5, 6, 7] ⟨200, 3⟩) := by decide +kernel
 
-/-- a second invocation with nothing changed does nothing (no edge is dirty) -/
+/-- **F7 (counter-statement)**: an option that reaches only a command line (cmd 6 → 9, e.g. `resvg -h $res`)
+is changed, the step fails AFTER writing its output (no log entry is written), the option is changed back:
+the log still names command 6, mtimes are in order, ninja considers the edge clean and keeps the output of
+command 9 — exit 0 with a stale font. -/
+theorem converges_fails_unlogged_output :
+    let b0 := cleanBuild [5, 6, 7] ⟨100, 1⟩
+    let b1 := (invokeFault [5, 9, 7] 1 .late b0)
+    b1.2 = false ∧ finalContent (invoke [5, 6, 7] b1.1) ≠ finalContent (cleanBuild [5, 6, 7] ⟨100, 1⟩) := by
+  decide +kernel
+
+/-- a second invocation with nothing changed does nothing (instance) -/
 theorem noop_rebuild : invoke [5, 6, 7] (cleanBuild [5, 6, 7] ⟨100, 1⟩) = cleanBuild [5, 6, 7] ⟨100, 1⟩ := by decide +kernel
 
 end NanoVerif.C09
